@@ -280,4 +280,7 @@ func genC13(g *Gen) {
 			one(bm, i, e, "rand")
 		}
 	}
+
+	// the widening: sparse / large / held bitmaps, walks, duality (c13w.go)
+	genC13w(g)
 }
